@@ -1,5 +1,6 @@
 import Clikit.Lemmas.ParserInv
 import Clikit.Lemmas.Spelling
+import Clikit.Lemmas.Realign
 /-!
 # C02 - malformed command lines are rejected with the documented errors and only those
 
@@ -156,6 +157,29 @@ theorem fault_unknown_short (cv : Conv) (f : Fmt) (len : Bool) {toks rest : List
   cases r with
   | nil => simp [addShort, hunk]
   | cons d ds => simp [hunk, parseShortSet]
+
+/-- **A surplus positional**: after ANY well-formed prefix, a positional token for which the
+format has no argument left (as many positionals as arguments were given already and the last
+argument is not multi-valued) is rejected with cannot-parse in strict mode ("too many arguments") -/
+theorem fault_surplus_positional (cv : Conv) (f : Fmt) (hml : MultiLast f.fargs) (hnd : (f.fargs.map (·.key)).Nodup)
+    {toks rest : List Str} {sems : List Sem} (t : Str) (ht : posLike t = true)
+    (hp : SpellsPrefix f (t :: rest) toks sems) (σ' : St)
+    (hrun : runSems f false sems St.empty = .ok σ')
+    (hfull : fits ((posVals sems).length + 1) f.fargs = false) :
+    parse cv f false (toks ++ t :: rest) = .error .cannotParse := by
+  have h := parse_of_loop_error cv f false (toks ++ t :: rest) .cannotParse σ' ?_ (Or.inl rfl)
+  · simpa using h
+  apply loop_prefix_error f false hp St.empty σ' .cannotParse t rest rfl hrun
+  rw [step_pos f false t rest σ' ht]
+  have hargs := runSems_fill f hml hnd false sems [] [] σ' (by simpa [St.empty, fill_nil_left] using hrun)
+  have hσ : σ' = { args := fill (posVals sems) f.fargs, opts := σ'.opts } := by
+    cases σ'
+    simp only [List.nil_append] at hargs
+    simp only at hargs ⊢
+    subst hargs
+    rfl
+  rw [hσ, parseArgument_fill hml hnd]
+  simp [hfull, cont]
 
 /-- **A required argument left out**: when the items are accepted and a required argument of
 the format has no value after the re-alignment, strict mode rejects with cannot-parse -/
